@@ -13,8 +13,14 @@
 //	field : the root is a selector on something else (a local struct value, a call result)
 //	local : a local identifier with some other definition (call result, range variable, …)
 //
-// Emitted: `c03_nonfresh` (every site that is not `fresh`, with file, function, site text, class), and
-// `c03_summary` (number of sites per file and class).
+//	call  : the root is the result of a call (`append(x.values(), …)`): safe only if the CALLEE returns a slice of its own
+//
+// Emitted: `c03_nonfresh` (every site that is not `fresh`, with file, function, site text, class),
+// `c03_summary` (number of sites per file and class), and `c03_callees`: for every function in rel/ and
+// syntax/std_seq*.go whose result a write site's destination comes from (class `call`, or a `local` defined by a call),
+// plus a fixed list of slice-returning helpers the heap model relies on or that hand out a value's own slice,
+// the classification of EVERY return statement ("fresh" when all are; otherwise `class:expr` per return) — so that a
+// callee that starts returning its receiver's slice (e.g. `return pv.v`) changes its row.
 package main
 
 import (
@@ -153,6 +159,8 @@ func c03Classify(root ast.Expr, fd *ast.FuncDecl) string {
 		return true
 	}
 	switch r := root.(type) {
+	case *ast.CallExpr:
+		return "call"
 	case *ast.Ident:
 		if allFresh(r.Name) {
 			return "fresh"
@@ -190,9 +198,36 @@ func c03Short(e ast.Expr) string {
 	return s
 }
 
+// c03CalleeName: the function or method name a call expression invokes (no types: the bare name)
+func c03CalleeName(e ast.Expr) string {
+	call, ok := e.(*ast.CallExpr)
+	if !ok {
+		return ""
+	}
+	switch f := call.Fun.(type) {
+	case *ast.Ident:
+		return f.Name
+	case *ast.SelectorExpr:
+		return f.Sel.Name
+	}
+	return ""
+}
+
+// slice-returning helpers the heap model assumes return storage of their own, and accessors that hand out a value's slice
+var c03FixedCallees = []string{
+	"values", "clone", "minus", "intersect", "GetSorted", "compose", "getIndices", "tupleToValues", "mapper",
+	"Values", "Bytes", "AttrsName", "asString", "asBytes", "asArray",
+}
+
+var c03Builtins = map[string]bool{"append": true, "make": true, "copy": true, "len": true, "cap": true, "new": true}
+
 func init() {
 	registerFacts("C03", func(repo string, pkgs map[string][]*ast.File) (string, map[string]interface{}) {
 		var sites []c03Site
+		tracked := map[string]bool{}
+		for _, n := range c03FixedCallees {
+			tracked[n] = true
+		}
 		scan := func(pkg string, keep func(base string) bool) {
 			for _, f := range pkgs[pkg] {
 				file := filepath.Base(fset.Position(f.Pos()).Filename)
@@ -207,7 +242,28 @@ func init() {
 					fn := recvName(fd) + fd.Name.Name
 					add := func(kind string, dst ast.Expr) {
 						root := c03StripRoot(dst)
-						sites = append(sites, c03Site{pkg + "/" + file, fn, kind + " " + c03Short(dst), c03Classify(root, fd)})
+						class := c03Classify(root, fd)
+						sites = append(sites, c03Site{pkg + "/" + file, fn, kind + " " + c03Short(dst), class})
+						// which callee does the safety of this write depend on?
+						if class == "call" {
+							if n := c03CalleeName(root); n != "" && !c03Builtins[n] {
+								tracked[n] = true
+							}
+						}
+						if id, ok := root.(*ast.Ident); ok && class == "local" {
+							ast.Inspect(fd.Body, func(n ast.Node) bool {
+								if as, ok := n.(*ast.AssignStmt); ok && len(as.Lhs) == len(as.Rhs) {
+									for i, l := range as.Lhs {
+										if li, ok := l.(*ast.Ident); ok && li.Name == id.Name {
+											if cn := c03CalleeName(c03StripRoot(as.Rhs[i])); cn != "" && !c03Builtins[cn] {
+												tracked[cn] = true
+											}
+										}
+									}
+								}
+								return true
+							})
+						}
 					}
 					ast.Inspect(fd.Body, func(n ast.Node) bool {
 						switch s := n.(type) {
@@ -279,7 +335,69 @@ func init() {
 			}
 			fmt.Fprintf(&b, "  (%s, %d)%s\n", leanStr(k), summary[k], sep)
 		}
+		b.WriteString("]\n\n")
+
+		// ---- callees: classification of every return statement
+		type calleeRow struct{ file, fn, verdict string }
+		var callees []calleeRow
+		scanCallees := func(pkg string, keep func(base string) bool) {
+			for _, f := range pkgs[pkg] {
+				file := filepath.Base(fset.Position(f.Pos()).Filename)
+				if !keep(file) {
+					continue
+				}
+				for _, decl := range f.Decls {
+					fd, ok := decl.(*ast.FuncDecl)
+					if !ok || fd.Body == nil || !tracked[fd.Name.Name] || fd.Type.Results == nil {
+						continue
+					}
+					var rets []string
+					allFresh := true
+					var walk func(n ast.Node) bool
+					walk = func(n ast.Node) bool {
+						switch x := n.(type) {
+						case *ast.FuncLit:
+							return false // returns of closures are not returns of the callee
+						case *ast.ReturnStmt:
+							for _, r := range x.Results {
+								class := c03Classify(c03StripRoot(r), fd)
+								if class != "fresh" {
+									allFresh = false
+								}
+								rets = append(rets, class+":"+c03Short(r))
+							}
+						}
+						return true
+					}
+					ast.Inspect(fd.Body, walk)
+					verdict := "fresh"
+					if !allFresh || len(rets) == 0 {
+						sort.Strings(rets)
+						verdict = strings.Join(rets, "; ")
+					}
+					callees = append(callees, calleeRow{pkg + "/" + file, recvName(fd) + fd.Name.Name, verdict})
+				}
+			}
+		}
+		scanCallees("rel", func(string) bool { return true })
+		scanCallees("syntax", func(b string) bool { return strings.HasPrefix(b, "std_seq") })
+		sort.SliceStable(callees, func(i, j int) bool {
+			if callees[i].file != callees[j].file {
+				return callees[i].file < callees[j].file
+			}
+			return callees[i].fn < callees[j].fn
+		})
+		b.WriteString("def c03_callees : List (String × String × String) := [\n")
+		var calleesJS [][]string
+		for i, c := range callees {
+			sep := ","
+			if i == len(callees)-1 {
+				sep = ""
+			}
+			fmt.Fprintf(&b, "  (%s, %s, %s)%s\n", leanStr(c.file), leanStr(c.fn), leanStr(c.verdict), sep)
+			calleesJS = append(calleesJS, []string{c.file, c.fn, c.verdict})
+		}
 		b.WriteString("]\n")
-		return b.String(), map[string]interface{}{"c03_nonfresh": nonfresh, "c03_summary": summary}
+		return b.String(), map[string]interface{}{"c03_nonfresh": nonfresh, "c03_summary": summary, "c03_callees": calleesJS}
 	})
 }
